@@ -532,9 +532,14 @@ func checkEviction(viol *[]ev.Violation) int {
 
 func c17Loop() []ev.Violation {
 	var out []ev.Violation
-	for _, limit := range []int{2, 5} {
+	for _, v := range [][2]int{{2, 0}, {5, 0}, {2, 1}, {5, 1}} {
+		limit, failNotify := v[0], v[1] == 1
 		c := sim.NewCluster(sim.Config{N: 3, Solo: true, SuspendLimit: limit, SelfOnly: map[int]bool{0: true}})
 		n := c.Nodes[0]
+		if failNotify {
+			// the application cannot be told about the suspension (its OnStateChanged returns an error once)
+			n.App.FailStateChange = map[state.State]int{state.Suspended: 1}
+		}
 		ticks := int64(0)
 		n.Node.VSetTimerFactory(func(time.Duration) <-chan time.Time {
 			if atomic.AddInt64(&ticks, 1) > 200 {
@@ -573,6 +578,11 @@ func c17Loop() []ev.Violation {
 		st := n.Node.GetState().String()
 		if !left && atomic.LoadInt64(&ticks) <= 200 {
 			ev.Fail("C17 loop: the babbling loop neither left nor used up its heartbeats within 60 s (ticks=%d)", atomic.LoadInt64(&ticks))
+		}
+		if st == "Suspended" && !left {
+			out = append(out, ev.Violation{Property: "C17", Key: "loop-suspended-but-still-babbling",
+				What:   fmt.Sprintf("limit %d, application notification of the suspension failing=%v: the node reports Suspended but its babbling loop is still running after %d heartbeats (%d new undetermined events)", limit, failNotify, atomic.LoadInt64(&ticks)-1, und),
+				Replay: map[string]interface{}{"limit": limit, "fail_notify": failNotify}})
 		}
 		if st != "Suspended" && und > limit*3 {
 			out = append(out, ev.Violation{Property: "C17", Key: "loop-did-not-self-suspend",
